@@ -164,4 +164,4 @@ def register_delegation_ast(w):
                 bad.append("ZIPHandler.%s is no longer a plain delegation: %s" % (m, texts))
         return (not bad, bad or "five one-line delegations to the handler chosen on the archive")
 
-    w.astcheck("C16.ast.wrapper-delegates", ["C16"], delegation)
+    w.astcheck("C16.ast.wrapper-delegates", ["C16"], delegation, soft=True)
